@@ -26,7 +26,7 @@ import pyarrow as pa
 import vgi_rpc.rpc._transport as T
 from vf.sched import Scheduler
 from vgi_rpc.rpc import (AnnotatedBatch, CallContext, ExchangeState, OutputCollector, ProducerState, RpcConnection,
-                         RpcServer, Stream, UnixTransport)
+                         RpcError, RpcServer, Stream, UnixTransport)
 
 warnings.filterwarnings("ignore")
 sys.setswitchinterval(1e-5)
@@ -159,6 +159,8 @@ class IsoSvc(Protocol):
     def u(self, tag: int, i: int) -> int: ...
     def p(self, tag: int) -> Stream[ProducerState]: ...
     def x(self, tag: int) -> Stream[ExchangeState]: ...
+    def pr(self, tag: int) -> Stream[ProducerState]: ...
+    def xr(self, tag: int) -> Stream[ExchangeState]: ...
 
 
 class Impl:
@@ -174,6 +176,14 @@ class Impl:
         _method("x", tag)
         return Stream(output_schema=OUT, state=XState(tag), input_schema=INP)
 
+    def pr(self, tag: int) -> Stream[ProducerState]:
+        _method("pr", tag)
+        raise ValueError(f"init boom tag={tag}")          # rejected before the input stream opens (header-less)
+
+    def xr(self, tag: int) -> Stream[ExchangeState]:
+        _method("xr", tag)
+        raise ValueError(f"init boom tag={tag}")
+
 
 def tag_of(c: int) -> int:
     return 100 * c + c
@@ -184,7 +194,9 @@ def _lab(label: str) -> str:
 
 
 class ConnWorld:
-    """scripts: {c: [op, ...]}, ops: u | pt (open producer + first tick) | t | xe (open exchange + first exchange) | e | c."""
+    """scripts: {c: [op, ...]}, ops: u | pt (open producer + first tick) | t | xe (open exchange + first exchange) | e | c |
+    pr / xr (open a header-less producer / exchange whose init raises; the client parks at `opened` afterwards, so that
+    other threads can run between the rejection and the session's first t / e / c = the stray input stream)."""
 
     def __init__(self, scripts: dict[int, list[str]], max_connections: int | None) -> None:
         self.sched = Scheduler(step_timeout=20.0)
@@ -274,22 +286,29 @@ class ConnWorld:
             sess = None
             with RpcConnection(IsoSvc, UnixTransport(s)) as px:
                 for i, op in enumerate(self.scripts[c]):
-                    if op == "u":
-                        obs("r", px.u(tag=tag, i=i))
-                    elif op == "pt":
-                        sess = px.p(tag=tag)
-                        obs("d", sess.tick().batch.column("v")[0].as_py())
-                    elif op == "t":
-                        obs("d", sess.tick().batch.column("v")[0].as_py())
-                    elif op == "xe":
-                        sess = px.x(tag=tag)
-                        obs("d", self._ex(sess, i))
-                    elif op == "e":
-                        obs("d", self._ex(sess, i))
-                    elif op == "c":
-                        sess.close()
-                        obs("c", 0)
-                        sess = None
+                    try:
+                        if op == "u":
+                            obs("r", px.u(tag=tag, i=i))
+                        elif op == "pt":
+                            sess = px.p(tag=tag)
+                            obs("d", sess.tick().batch.column("v")[0].as_py())
+                        elif op == "t":
+                            obs("d", sess.tick().batch.column("v")[0].as_py())
+                        elif op == "xe":
+                            sess = px.x(tag=tag)
+                            obs("d", self._ex(sess, i))
+                        elif op == "e":
+                            obs("d", self._ex(sess, i))
+                        elif op in ("pr", "xr"):
+                            sess = px.pr(tag=tag) if op == "pr" else px.xr(tag=tag)
+                            self.sched.yield_point("opened")
+                        elif op == "c":
+                            sess.close()
+                            obs("c", 0)
+                            sess = None
+                    except RpcError as e:
+                        # an error answer is part of the history: the connection's own (it names the call's argument) or not
+                        obs("e", tag if f"tag={tag}" in str(e) else 0)
             self.sched.emit(e="ClientDone", c=c)
         except BaseException as e:  # noqa: BLE001
             self.client_errors[c] = f"{type(e).__name__}: {e}"
